@@ -23,6 +23,9 @@ type C15Class struct {
 	File    int      `json:"file"`
 	// Direct: the class block is directly followed by `local <var> = {}` (the variable gets the class type)
 	Direct string `json:"direct,omitempty"`
+	// Glued: no blank line after the class block — the next annotation block of the file continues the
+	// same comment block (several ---@class declarations back to back)
+	Glued bool `json:"glued,omitempty"`
 }
 
 type C15Alias struct {
@@ -81,6 +84,7 @@ func genC15(t *rapid.T) C15Case {
 				cl.Parents = append(cl.Parents, pn)
 			}
 		}
+		cl.Glued = rapid.IntRange(0, 3).Draw(t, "glued") == 0
 		c.Classes = append(c.Classes, cl)
 	}
 	na := rapid.IntRange(0, 3).Draw(t, "naliases")
@@ -181,8 +185,18 @@ func (c *C15Case) files(mode string) (Workspace, map[string]Loc, map[string][2]i
 		bufs[fi].WriteString(s + "\n")
 		lines[fi]++
 	}
-	for _, cl := range c.Classes {
+	for ci, cl := range c.Classes {
 		fi := cl.File
+		// which class a variable gets that directly follows a block of several classes is not
+		// documented: the block in front of a class with a Direct variable always ends in a blank line
+		for _, nx := range c.Classes[ci+1:] {
+			if nx.File == fi {
+				if nx.Direct != "" {
+					cl.Glued = false
+				}
+				break
+			}
+		}
 		hdr := "---@class " + cl.Name
 		if len(cl.Parents) > 0 {
 			hdr += " : " + strings.Join(cl.Parents, ", ")
@@ -195,7 +209,12 @@ func (c *C15Case) files(mode string) (Workspace, map[string]Loc, map[string][2]i
 		}
 		if cl.Direct != "" {
 			w(fi, "local "+cl.Direct+" = {}")
+			w(fi, "")
+		} else if !cl.Glued {
+			w(fi, "")
 		}
+	}
+	for fi := 0; fi < c.NFiles; fi++ {
 		w(fi, "")
 	}
 	for _, a := range c.Aliases {
